@@ -5,6 +5,8 @@ import (
 	"sync"
 
 	"github.com/libp2p/go-libp2p/core/peer"
+
+	"github.com/ipfs/go-graphsync/verifhook"
 )
 
 // PeerProcess is any process that provides services for a peer
@@ -78,6 +80,9 @@ func (pm *PeerManager) Disconnected(p peer.ID) {
 	delete(pm.peerProcesses, p)
 	pm.peerProcessesLk.Unlock()
 
+	if verifhook.Enabled {
+		verifhook.Yield("peermanager.beforeShutdown", string(p), pm)
+	}
 	if pprocess, ok := pq.process.(PeerProcess); ok {
 		pprocess.Shutdown()
 	}
@@ -96,6 +101,9 @@ func (pm *PeerManager) GetProcess(
 	pm.peerProcessesLk.RUnlock()
 	// but sometimes it involves a create (we still need to do get or create cause it's possible
 	// another writer grabbed the Lock first and made the process)
+	if verifhook.Enabled {
+		verifhook.Yield("peermanager.getProcessMiss", string(p), pm)
+	}
 	pm.peerProcessesLk.Lock()
 	pqi = pm.getOrCreate(p)
 	pm.peerProcessesLk.Unlock()
